@@ -405,7 +405,7 @@ class GCCHKPacker(Packer):
                 sub_index = getattr(pack, index_name)
                 index_to_pack[sub_index] = pack.access_tuple()
                 indices.append(sub_index)
-            index = _mod_index.CombinedGraphIndex(indices)
+            index = _mod_index.CombinedGraphIndex(indices, reload_func=self._reload_func)
             add_callback = None
         vf = GroupCompressVersionedFiles(
             _GCGraphIndex(
